@@ -158,7 +158,7 @@ fn apply(i: &mut Inst, op: DOp) -> String {
     let trace = take_trace();
     let reply_errs = take_reply_errs();
     match line {
-        Ok(l) => format!("{:?}: {} trace={} reply_error_texts={}", op, l, hash64(&trace, 3), if reply_errs.is_empty() { "-".to_string() } else { format!("{:016x}/{}", hash64(&reply_errs, 6), reply_errs.iter().map(|e| e.len()).sum::<usize>()) }),
+        Ok(l) => format!("{:?}: {} trace={} replies_verbatim={}", op, l, hash64(&trace, 3), if reply_errs.is_empty() { "-".to_string() } else { format!("{:016x}/{}", hash64(&reply_errs, 6), reply_errs.iter().map(|e| e.len()).sum::<usize>()) }),
         Err(p) => format!("{:?}: PANIC {}", op, p),
     }
 }
@@ -408,10 +408,10 @@ pub fn run_c19(ctx: &Ctx) -> i32 {
             ctx.violation("c19:depends-on-call-stack", json!({"history": format!("{:?}", h), "environment": "RUST_BACKTRACE=0", "called_directly": direct[i], "called_from_another_thread_and_depth": deep[i]}));
         }
         if t_direct[i] != t_deep[i] {
-            ctx.violation("c19:depends-on-call-stack:RUST_BACKTRACE=1", json!({"history": format!("{:?}", h), "environment": "RUST_BACKTRACE=1", "called_directly": t_direct[i], "called_from_another_thread_and_depth": t_deep[i], "note": "reply_error_texts=<hash>/<total length> is the error text handed to reply entry points"}));
+            ctx.violation("c19:depends-on-call-stack:RUST_BACKTRACE=1", json!({"history": format!("{:?}", h), "environment": "RUST_BACKTRACE=1", "called_directly": t_direct[i], "called_from_another_thread_and_depth": t_deep[i], "note": "replies_verbatim=<hash>/<total length> is every Reply handed to reply entry points, verbatim"}));
         }
         if direct[i] != t_direct[i] {
-            ctx.violation("c19:depends-on-environment:RUST_BACKTRACE", json!({"history": format!("{:?}", h), "with RUST_BACKTRACE=0": direct[i], "with RUST_BACKTRACE=1": t_direct[i], "note": "reply_error_texts=<hash>/<total length> is the error text handed to reply entry points"}));
+            ctx.violation("c19:depends-on-environment:RUST_BACKTRACE", json!({"history": format!("{:?}", h), "with RUST_BACKTRACE=0": direct[i], "with RUST_BACKTRACE=1": t_direct[i], "note": "replies_verbatim=<hash>/<total length> is every Reply handed to reply entry points, verbatim"}));
         }
     }
     // (d) replay validation of an explicit-state exploration: states reached through snapshot
@@ -424,7 +424,7 @@ pub fn run_c19(ctx: &Ctx) -> i32 {
         "traces_validated_against_impl": out.histories + out.interleaved_runs,
         "evaluations": out.histories + out.interleaved_runs,
         "distinct_nontrivial": out.distinct_transcripts,
-        "rule": "(a) every history over the operation alphabet up to the length bound, run on two independently built Apps, transcripts (results, events, data, code ids, addresses, checksums, invocation traces, final raw dump) compared; (b) every ordered pair of shorter histories on two Apps in one thread under every interleaving, each transcript compared with its solo transcript; (0) the same with a second, differently configured App (other bonded denomination, unbonding time, rate, commission, balances): solo transcripts of both configurations, and every pair of short histories under every interleaving and both construction orders; (c') histories with caught failures on one thread, directly and from another thread under extra stack frames, in this process (RUST_BACKTRACE=0) and in a second one with RUST_BACKTRACE=1: all four transcripts equal (the transcript includes the error text handed to reply entry points and the error texts of malformed and unanswerable queries); (c) digest of everything recomputed in a second OS process with 3 worker threads, which uses the two configurations in the opposite order; distinct_nontrivial = distinct transcripts",
+        "rule": "(a) every history over the operation alphabet up to the length bound, run on two independently built Apps, transcripts (results, events, data, code ids, addresses, checksums, invocation traces, final raw dump) compared; (b) every ordered pair of shorter histories on two Apps in one thread under every interleaving, each transcript compared with its solo transcript; (0) the same with a second, differently configured App (other bonded denomination, unbonding time, rate, commission, balances): solo transcripts of both configurations, and every pair of short histories under every interleaving and both construction orders; (c') histories with caught failures on one thread, directly and from another thread under extra stack frames, in this process (RUST_BACKTRACE=0) and in a second one with RUST_BACKTRACE=1: all four transcripts equal (the transcript includes every Reply verbatim - gas_used and error texts too - and the error texts of malformed and unanswerable queries); (c) digest of everything recomputed in a second OS process with 3 worker threads, which uses the two configurations in the opposite order; distinct_nontrivial = distinct transcripts",
         "exhaustive": true,
         "histories": out.histories, "history_pairs": out.pairs, "interleaved_runs": out.interleaved_runs,
         "digest": mine, "digest_second_process": other, "environment_histories": eh.len(),
